@@ -161,8 +161,12 @@ class IlluminaExonCorrector:
             score = IlluminaExonCorrector.MAX_SCORE
             overlapping = []
             appended = False
-        # in case of introns in the wrong order the next steps will not work so debug option here
-        if not validate_exons(get_exons((exons[0][0], exons[-1][1]), corrected_introns)):
-            logger.debug("old:", introns)
-            logger.debug("new:", corrected_introns)
-        return get_exons((exons[0][0], exons[-1][1]), corrected_introns)
+        corrected_exons = get_exons((exons[0][0], exons[-1][1]), corrected_introns)
+        # short-read introns reaching beyond the neighbouring exons would swallow them (or give exons in the wrong order):
+        # such a correction contradicts the alignment itself, keep the original exons
+        if not validate_exons(corrected_exons) or \
+                corrected_exons[0][0] != exons[0][0] or corrected_exons[-1][1] != exons[-1][1]:
+            logger.debug("Inconsistent short-read correction, old introns: %s, new introns: %s" %
+                         (str(introns), str(corrected_introns)))
+            return exons
+        return corrected_exons
